@@ -31,6 +31,11 @@ pub enum St {
     WrongScheme,
     /// auth only: scheme present, token empty
     EmptyToken,
+    /// auth only: the header value is empty / one character / the prefix without its last
+    /// character / the cookie name alone (all shorter than the expected prefix)
+    EmptyValue,
+    OneChar,
+    PrefixCut,
 }
 
 #[derive(Clone)]
@@ -251,7 +256,7 @@ pub fn states_of(a: &ArgD) -> Vec<St> {
             v.push(St::InvalidText);
         }
         Kind::AuthHeader | Kind::AuthCookie(_) => {
-            v.extend([St::Absent, St::WrongScheme, St::EmptyToken, St::Unparsable, St::InvalidText]);
+            v.extend([St::Absent, St::WrongScheme, St::EmptyToken, St::Unparsable, St::InvalidText, St::EmptyValue, St::OneChar, St::PrefixCut]);
         }
         Kind::Body => {
             v.extend([St::Absent, St::Unparsable]);
@@ -341,6 +346,9 @@ pub fn build(e: &EndpointD, states: &[St]) -> Built {
                     St::Absent => None,
                     St::WrongScheme => Some(format!("{}{}", wrong, a.valid).into_bytes()),
                     St::EmptyToken => Some(prefix.clone().into_bytes()),
+                    St::EmptyValue => Some(vec![]),
+                    St::OneChar => Some(b"x".to_vec()),
+                    St::PrefixCut => Some(prefix[..prefix.len() - 1].as_bytes().to_vec()),
                     St::Unparsable => Some(format!("{}{}", prefix, a.bad).into_bytes()),
                     St::InvalidText => {
                         let mut b = format!("{}{}", prefix, a.taint).into_bytes();
